@@ -14,12 +14,12 @@ PROPERTY = 'C19'
 LEVEL = 'model_checking'
 RULE = ('explicit-state BFS: states are (real store canonical form incl. empty queues and insertion order, set of admissible '
         'reference states); every symbol of the alphabet {put x3 cmds, find, find_allow_zeros, contains, get, clear, clear_all, '
-        'len} over the id domain (wildcard None included for lookups) is applied at every reachable state up to the stated '
+        'len, stream_opened} over the id domain (wildcard None included for lookups) is applied at every reachable state up to the stated '
         'depth; a case is non-trivial when the store holds at least one pending packet before the symbol is applied; '
         'distinct = distinct (state, symbol) pairs')
 ASSUMPTIONS = ['callers respect get()\'s documented precondition ((arg0, arg1) in store)', 'state deduplication uses a structural canonical form of the whole object graph of the store (all attributes, aliasing explicit), so hidden state separates states',
                'the store never inspects packet payloads (tags are renumbered in the canonical form)',
-               'putting a CLSE on a pair with no pending packet is unspecified by C19 (both outcomes admissible)']
+               'putting a CLSE on a pair with no entry (never parked, or forgotten by a retrieved CLSE / clear) is unspecified by C19 (both outcomes admissible); a pair whose packets were all retrieved keeps its entry, and a CLSE parked for it must be kept']
 
 OKAY, WRTE, CLSE = b'OKAY', b'WRTE', b'CLSE'
 
@@ -35,7 +35,9 @@ def matches(pair, x0, x1):
 
 
 class Ref(object):
-    """A set of admissible reference states; each state is a dict pair -> tuple of (cmd, tag)."""
+    """A set of admissible reference states; each state is a dict pair -> tuple of (cmd, tag).  A key whose tuple is empty is an
+    entry whose packets have all been retrieved (the stream is known, nothing is pending): lookups and len() ignore it, but a CLSE
+    parked for it must be kept -- only a CLSE for a pair without any entry is unspecified."""
 
     def __init__(self, cands=None):
         self.cands = cands if cands is not None else [dict()]
@@ -57,7 +59,7 @@ class Ref(object):
 
     def find(self, x0, x1, r):
         def ok(s):
-            have = [p for p in s if matches(p, x0, x1)]
+            have = [p for p in s if s[p] and matches(p, x0, x1)]
             if r is None:
                 return not have
             return tuple(r) in have
@@ -67,28 +69,27 @@ class Ref(object):
         pats = ((x0, x1), (x0, 0), (0, x1), (0, 0))
 
         def ok(s):
-            have = [p for p in s if any(matches(p, a, b) for a, b in pats)]
+            have = [p for p in s if s[p] and any(matches(p, a, b) for a, b in pats)]
             if r is None:
                 return not have
             return tuple(r) in have
         return self.prune(ok)
 
     def length(self, n):
-        return self.prune(lambda s: len(s) == n)
+        return self.prune(lambda s: sum(1 for q in s.values() if q) == n)
 
     def get(self, x0, x1, r):
         cmd, a0, a1, tag = r
         out = []
         for s in self.cands:
             p = (a0, a1)
-            if not matches(p, x0, x1) or p not in s or s[p][0] != (cmd, tag):
+            if not matches(p, x0, x1) or not s.get(p) or s[p][0] != (cmd, tag):
                 continue
             t = dict(s)
-            rest = s[p][1:]
-            if cmd == CLSE or not rest:
+            if cmd == CLSE:
                 del t[p]                          # a retrieved CLSE forgets the stream
             else:
-                t[p] = rest
+                t[p] = s[p][1:]                   # possibly empty: the entry stays
             out.append(t)
         self.cands = _uniq(out)
         return bool(out)
@@ -105,7 +106,7 @@ class Ref(object):
         self.cands = [dict()]
 
     def any_pending(self):
-        return any(s for s in self.cands)
+        return any(q for s in self.cands for q in s.values())
 
     def canon(self, rank):
         return frozenset(tuple(sorted((p, tuple((c, rank[t]) for c, t in q)) for p, q in s.items())) for s in self.cands)
@@ -203,7 +204,7 @@ def apply_symbol(store, ref, sym, tag):
             return '__contains__ returned non-bool %r' % (r,)
 
         def ok(s):
-            return r == any(matches(p, sym[1], sym[2]) for p in s)
+            return r == any(q and matches(p, sym[1], sym[2]) for p, q in s.items())
         if not ref.prune(ok):
             return '(%r,%r) in store returned %r' % (sym[1], sym[2], r)
         return None
@@ -226,6 +227,12 @@ def apply_symbol(store, ref, sym, tag):
         store.clear_all()
         ref.clear_all()
         return None
+    if op == 'opened':
+        # registering an acknowledged OPEN (the K1 repair) parks nothing: no observable effect on any lookup, count or retrieval;
+        # its only licensed effect -- keeping a CLSE put on a pair without entry -- is already admissible in the reference
+        if hasattr(store, 'stream_opened'):
+            store.stream_opened(sym[1], sym[2])
+        return None
     raise common.HarnessError('unknown symbol %r' % (sym,))
 
 
@@ -234,7 +241,8 @@ def alphabet(dom):
     ro = [('find', a, b) for a in wild for b in wild] + [('findz', a, b) for a in wild for b in wild] + \
          [('in', a, b) for a in wild for b in wild] + [('len',)]
     mut = [('put', a, b, c) for a in dom for b in dom for c in (OKAY, WRTE, CLSE)] + \
-          [('get', a, b) for a in wild for b in wild] + [('clear', a, b) for a in dom for b in dom] + [('clear_all',)]
+          [('get', a, b) for a in wild for b in wild] + [('clear', a, b) for a in dom for b in dom] + [('clear_all',)] + \
+          [('opened', a, b) for a in dom for b in dom]
     return ro, mut
 
 
